@@ -83,6 +83,10 @@ type Result struct {
 	Wire            *WireHello // parsed first ClientHello
 	Wire2           *WireHello // parsed second ClientHello (after HRR) or nil
 	Trace           tls.VerifServerTrace
+	// first server hello as the client received it (parsed from the bytes read, independent of the server's trace)
+	ServerHelloSeen   bool
+	ServerHelloRandom []byte
+	ServerHelloSID    []byte
 }
 
 func (r *Result) Completed() bool { return r.BuildErr == nil && r.ClientErr == nil }
@@ -231,6 +235,7 @@ func Run(o Opts) *Result {
 	if len(res.Hellos) > 1 {
 		res.Wire2, _ = ParseClientHello(res.Hellos[1])
 	}
+	_, res.ServerHelloRandom, res.ServerHelloSID, _, res.ServerHelloSeen = ServerHelloFromStream(rc.ReadBytes())
 	if res.AlertFromClient < 0 {
 		// a plaintext alert the server never got to read (it failed first)
 		if al := PlainAlerts(res.ClientStream); len(al) > 0 {
